@@ -3,6 +3,7 @@ CONSTANTS ControlsExisting = TRUE
   OpenReturns = TRUE
   OwnsOnlyCreated = TRUE
   OpenKeepsLimits = TRUE
+  MovesWholeProcess = TRUE
   CtlSets = {{"cpu", "memory"}, {"u"}, {"cpuset", "memory"}}
   Names = {"x", "y"}
   RNames = {"r"}
